@@ -402,7 +402,7 @@ func e1RunWordInner(sc e1Scen, word []sym, scratch string, props map[string]bool
 				rotations++
 				if rotations == sc.FaultAt {
 					ls := r.mi.m.leadingStream
-					blocker := filepath.Join(dir, segmentPath(ls.prefix, ls.id, ls.nextSegmentID+1, sc.Cfg.Variant != "mpegts"))
+					blocker := filepath.Join(dir, vSegmentPath(ls.prefix, ls.id, ls.nextSegmentID+1, sc.Cfg.Variant != "mpegts"))
 					os.Mkdir(blocker, 0o755)
 					ok := r.apply(ws.unit(s))
 					os.Remove(blocker)
